@@ -1115,6 +1115,22 @@ class Ref:
             tab[(fname[fid], d.name)] = self.value_of(d)
         return tab
 
+    def symbol_table_multi(self):
+        """{(file name, symbol name): sorted list of values}: one value per compilation of the file (a file that is included twice
+        defines its symbols twice, at its two places)."""
+        fname = {}
+        def walk_units(u):
+            fname[u["fid"]] = u["file"].name
+            for it in u["items"]:
+                if it[0] == "include":
+                    walk_units(it[1])
+        for u in self.units:
+            walk_units(u)
+        tab = {}
+        for (fid, n), d in self.private.items():
+            tab.setdefault((fname[fid], d.name), []).append(self.value_of(d))
+        return {k: sorted(v) for k, v in tab.items()}
+
 
 def check_insn(seg_insn, addr, chunk):
     """Compare the real bytes of one instruction statement with the abstract instruction through the independent
